@@ -323,13 +323,21 @@ def run(ctx):
             t4.site("From<%s> for %s = %s::from_str(&x.to_string()).unwrap()" % (source.split("::")[-1], target.split("::")[-1], target.split("::")[-1]))
         else:
             t4.fail("C18.T4:%s" % target, f.path, f.span, "conversion does not go through to_string -> from_str of the target type")
-    for name, tr_ in (("from_str", "str::FromStr"), ("try_from", "convert::TryFrom")):
+    u_parsers = set()
+    for name, tr_ in (("try_from", "convert::TryFrom"), ("from_str", "str::FromStr"), ("try_from", "convert::TryFrom")):
         f = trait_fn(P, U, tr_, name) or next((g for g in P.fns.values() if g.crate == "bignumber" and g.name == name and g.impl_self == U and g.body is not None and (g.impl_trait or "").endswith(tr_)), None)
         if f is None:
             continue
         parses = calls_named(P, f, "from_dec_str")
         if len(parses) == 1 and set(ctx.roots(parses[0][1][4][0])) == {P_(f, 0)}:
-            t4.site("Uint256::%s parses with U256::from_dec_str" % name)
+            if f.path not in u_parsers:
+                t4.site("Uint256::%s parses with U256::from_dec_str" % name)
+            u_parsers.add(f.path)
+        elif not parses and any(p_ and (P.fn(p_) or P.fn(generic_path(p_))) is not None and (P.fn(p_) or P.fn(generic_path(p_))).path in u_parsers and
+                                set(ctx.roots(P.val_call(f, f.body, b_)[4][0])) == {P_(f, 0)} for b_, p_, fr_, t_ in P.calls(f)) and \
+                all(set(ctx.roots(v_, (("v", "Ok"), ("f", 0)))) <= {r_ for b_, p_, fr_, t_ in P.calls(f) for r_ in ctx.roots(P.val_call(f, f.body, b_), (("v", "Ok"), ("f", 0)))} | set()
+                    for (b2_, i2_, cls_, v_) in common.ok_exit_blocks(P, f)):
+            t4.site("Uint256::%s forwards to a verified Uint256 text parser" % name)
         else:
             t4.fail("C18.T4:uint-%s" % name, f.path, f.span, "Uint256::%s does not parse with U256::from_dec_str" % name)
     ud = trait_fn(P, U, "fmt::Display", "fmt")
